@@ -27,7 +27,7 @@ func (e *engine) newFnCtx(fn *ssa.Function, blk *block, name string) *fnCtx {
 		ifaces: map[string]*types.Interface{}, heapSort: map[string]string{}, boxes: map[string]string{},
 		params: map[string]Val{}, closures: map[string]*closureInfo{}, prov: map[string]string{}, siteN: map[string]int{},
 		trusted: map[string]bool{}, anchorsHit: map[*clause]int{}, loopsOf: map[*ssa.BasicBlock]int{}, theories: map[string]bool{},
-		rangeOf: map[*ssa.Range]*rangeInfo{}, selIdx: map[*ssa.Select]string{}, sitePos: map[string][]token.Pos{}, linearCells: map[*ssa.Alloc]bool{}, allocFacts: map[string]bool{}, modsOf: map[*ssa.BasicBlock]modSet{},
+		rangeOf: map[*ssa.Range]*rangeInfo{}, selIdx: map[*ssa.Select]string{}, sitePos: map[string][]token.Pos{}, linearCells: map[*ssa.Alloc]bool{}, allocFacts: map[string]bool{}, freshRefs: map[string]bool{}, frozenTag: map[string]*types.Map{}, frozenNow: map[string]bool{}, modsOf: map[*ssa.BasicBlock]modSet{},
 	}
 	return fc
 }
@@ -54,7 +54,7 @@ func (e *engine) verifyFunc(fn *ssa.Function, blk *block) (res *fnResult) {
 		fc.theories[th] = true
 	}
 	fc.collectSites()
-	st := &state{cells: map[*ssa.Alloc]Val{}, heap: map[string]Val{}, ghost: map[string]Val{}, pc: "true"}
+	st := &state{cells: map[*ssa.Alloc]Val{}, heap: map[string]Val{}, ghost: map[string]Val{}, pc: "true", frozen: map[string]*types.Map{}}
 	fc.heapVar(st, "alloc", "(Array V Bool)")
 	fc.heapVar(st, "ch!closed", "(Array V Bool)")
 	bind := map[string]Val{}
@@ -66,6 +66,9 @@ func (e *engine) verifyFunc(fn *ssa.Function, blk *block) (res *fnResult) {
 		bind[fmt.Sprintf("$%d", k)] = v
 		if v.S == "V" {
 			fc.assume(st, fmt.Sprintf("(or (= %s vnil) (select %s %s))", v.T, al, v.T))
+		}
+		if mt, ok := fc.isFrozenType(p.Type()); ok {
+			fc.thaw(st, v, mt)
 		}
 	}
 	if fn.Signature.Recv() != nil && len(fn.Params) > 0 {
@@ -182,7 +185,7 @@ func (e *engine) verifyFunc(fn *ssa.Function, blk *block) (res *fnResult) {
 	}
 	// every at-clause must have matched at least one site (vacuity guard i)
 	for _, c := range blk.clauses {
-		if strings.HasPrefix(c.kind, "at-") && fc.anchorsHit[c] == 0 {
+		if strings.HasPrefix(c.kind, "at-") && fc.anchorsHit[c] == 0 && !strings.HasPrefix(c.label, "opt:") {
 			o := fc.assert(st, "unmapped", "unmapped.at."+c.anchor+"."+c.name(0), "false", "anchor matched no instruction: "+c.src, fn.Pos())
 			o.pc = "true"
 			o.nassume = 0
@@ -612,7 +615,10 @@ func (fc *fnCtx) execReturn(st *state, r *ssa.Return) {
 	fc.runAnchors(st, "return", func(string) bool { return true }, 0, bind, false, "true", r.Pos())
 	ev := &evalCtx{cur: st, old: fc.entry, bind: bind}
 	for i, c := range fc.blk.byKind("ensures") {
-		fc.assert(st, "post", "post."+c.name(i), fc.evalFormula(c.f, ev), c.src, r.Pos())
+		o := fc.assert(st, "post", "post."+c.name(i), fc.evalFormula(c.f, ev), c.src, r.Pos())
+		if len(c.props) > 0 {
+			o.props = c.props
+		}
 	}
 	for i, c := range fc.blk.byKind("exit") {
 		fc.assert(st, "post", "exit."+c.name(i), fc.evalFormula(c.f, ev), c.src, r.Pos())
